@@ -609,6 +609,8 @@ def r3(ctx):
                                           and not isinstance(parent(s.target), (ast.Tuple, ast.List))) else None
             if k:
                 binds.setdefault(s.path, set()).add(k)
+            elif s.kind == "assign" and isinstance(s.value, ast.Constant) and s.value.value is None:
+                pass        # `x = None` keeps x what it was: possibly None
             else:
                 impure.add(s.path)
         binds = {v: ks for v, ks in binds.items() if v not in impure}
@@ -1309,7 +1311,17 @@ def r8(ctx):
     for d in [x for x in ast.walk(tm.tree) if isinstance(x, ast.Dict)]:
         keys = [ap(k) for k in d.keys if k is not None]
         pk = {k.split(".")[-1] for k in keys if k and k.split(".")[-2:-1] == ["PCode"]}
-        if not pk or not isinstance(parent(d), ast.Call):
+        if not pk:
+            continue
+        consumer = parent(d) if isinstance(parent(d), ast.Call) else None
+        if consumer is None and isinstance(parent(d), (ast.Assign, ast.AnnAssign)):
+            # the table is named first and handed to the dispatcher afterwards
+            tgt = parent(d).targets[0] if isinstance(parent(d), ast.Assign) else parent(d).target
+            fn_ = next((a for a in ancestors(d) if isinstance(a, FUNC_TYPES)), None)
+            if isinstance(tgt, ast.Name) and fn_ is not None:
+                consumer = next((c for c in calls(fn_) if any(
+                    isinstance(a_, ast.Name) and a_.id == tgt.id for a_ in list(c.args) + [k.value for k in c.keywords])), None)
+        if consumer is None:
             continue
         nt += 1
         has_default = any(k and k.split(".")[-1] == "MISSING" for k in keys)
@@ -1468,6 +1480,39 @@ def r_audit(ctx):
                      f"changed anything", bool(rcs) and covered, upd.fi.where,
            f"futures are resolved only under {fs_}: the reply to a repeated request for an unchanged object leaves the "
            f"request pending forever (never resolved, never cancelled)")
+    # (3b) whether a region state owns the object is decided by its index, not by the object's handle alone
+    objp = upd.params[1] if len(upd.params) > 1 else None
+    uts = [c for c in find_calls(upd.tree, "untrack_object", into_defs=False)
+           if c.args and ap(c.args[0]) == objp and isinstance(c.func, ast.Attribute) and ap(c.func.value) in states]
+    ctx.floor("C14.R2", "untrack_object calls in _update_existing_object", len(uts), 1)
+    for c in uts:
+        st = ap(c.func.value)
+        checks = []
+        for x in walk(upd.tree):
+            if isinstance(x, ast.Compare) and len(x.ops) == 1 and isinstance(x.ops[0], (ast.Is, ast.IsNot)):
+                sides = [origin(upd.tree, x.left), origin(upd.tree, x.comparators[0])]
+                if any(ap(y) == objp for y in (x.left, x.comparators[0])) and any(
+                        isinstance(y, ast.Call) and isinstance(y.func, ast.Attribute)
+                        and (call_attr(y) == "lookup_localid" and ap(y.func.value) == st
+                             or call_attr(y) == "get" and (ap(y.func.value) or "") == f"{st}.localid_lookup") for y in sides):
+                    checks.append(x)
+        cn = set(upd.nodes(c))
+        dom = any(normal_path(upd.cfg, [upd.cfg.entry], lambda n: n in cn, lambda n, k=k: n in set(upd.nodes(k))) is None
+                  for k in checks)
+        ctx.ob("C14.R2", f"{WM}._update_existing_object: {st}.untrack_object({objp}) only after the index was asked whether "
+                         f"it holds {objp}", bool(checks) and dom, upd.w(c),
+               f"ownership is inferred from the region handles: an object parked under a handle that was not tracked when "
+               f"it got there is not in {st}.localid_lookup although {st} exists by now - untrack_object raises KeyError, "
+               f"and while the handles are equal the object is never tracked, parented or given its orphans")
+    # (6) D122 (recorded): the handle -> manager registry is not checked against the region that announces the handle
+    trk = Fn(ctx, f"{WM}.track_region_objects")
+    region_aware = len(trk.params) > 2 or any(
+        isinstance(x, ast.Compare) and isinstance(x.ops[0], (ast.Is, ast.IsNot)) and not any(
+            isinstance(y, ast.Constant) and y.value is None for y in [x.left] + x.comparators) for x in walk(trk.tree))
+    ctx.ob("C14.R8", f"{WM}.track_region_objects re-binds a handle that another region object announces", region_aware,
+           trk.fi.where, "the registry is keyed by handle only and keeps whatever manager is registered: a successor region "
+                         "under the same handle whose predecessor was never torn down shares the predecessor's index "
+                         "(updates go by handle to the old state, kills by circuit to the new one)")
     # (4) the avatar index forgets an object together with the full-id index
     for q in (f"{WM}._kill_object_by_local_id", f"{WM}.untrack_region_objects"):
         g = Fn(ctx, q)
